@@ -29,7 +29,7 @@ TRUSTED = [
 ASSUMPTIONS = [
     'tokenizer contract (checked on every recorded batch): tag names passed to handle_starttag do not begin with "{" (needed for the void-element clause only)',
     'strings are sequences of Unicode scalar values (lone surrogates: known finding C07-xml-surrogate)',
-    'XML: no reference to an undefined entity inside an attribute value (known finding C07-xml-attr-undefined-entity), no external general entities',
+    'XML: no reference to an undefined entity inside an attribute value (known finding C07-xml-attr-undefined-entity), no namespace URI beginning with "{" (known finding C07-xml-brace-namespace), no external general entities',
     'the `encoding` argument names an existing codec (codecs.getreader is called outside the try block)',
 ]
 
@@ -331,6 +331,13 @@ def oracle_html(case):
         f = same_as_base('reader with chunk schedule %r' % (case['sched'],), script, ev, ex)
         if f:
             return f
+    if case.get('splits'):
+        # one cut, at every position
+        for i in range(1, len(text)):
+            script, ev, ex = record_html(lambda: G.ScheduleReader(text, [i, len(text)]))
+            f = same_as_base('input cut once after %d characters' % i, script, ev, ex)
+            if f:
+                return f
     # the bytes path: a codecs reader in front of the same text
     if not has_surrogate(text):
         for enc in case.get('encodings', ['utf-8']):
@@ -510,9 +517,13 @@ ATTR_ENTITY = re.compile(r'''=\s*(?:"[^"]*&[^\s"#;&<]+;|'[^']*&[^\s'#;&<]+;)''')
 NAMED_REF = re.compile(r'&([^\s#;&<"\']+);')
 
 
+BRACE_NS = re.compile(r'''xmlns(?::[^\s=]*)?\s*=\s*["']\{''')
+
+
 def in_attr_entity_zone(text):
-    """the class of the known finding C07-xml-attr-undefined-entity (generators stay outside)"""
-    return bool(ATTR_ENTITY.search(text))
+    """the classes of the known findings C07-xml-attr-undefined-entity and C07-xml-brace-namespace
+    (generators stay outside)"""
+    return bool(ATTR_ENTITY.search(text)) or bool(BRACE_NS.search(text))
 
 
 def oracle_xml_text(case):
@@ -1362,6 +1373,8 @@ def gen_cases(rng, n, big=1):
                 c['sched'] = [rng.choice([1, 2, 3, 5, 7, 34, 35]) for _ in range(rng.randrange(1, 6))]
             if rng.random() < 0.15:
                 c['encodings'] = ['utf-8', 'utf-16', 'latin-1']
+            if len(c['text']) <= 60 and rng.random() < 0.3:
+                c['splits'] = True
             cases.append(c)
         elif r < 0.40:
             doc = G.valid_html_doc(rng)
@@ -1720,7 +1733,7 @@ FIXED = [
 
 def run(ctx):
     nsh = 16
-    per = ctx.n(1600, 30000)
+    per = ctx.n(1600, 20000)
     nprefix = ctx.n(8, 60)
     big = ctx.n(3, 20)
     args = [(ctx.seed, i, per, nprefix, big) for i in range(nsh)]
